@@ -19,7 +19,7 @@
 From Coq Require Import NArith List.
 Import ListNotations.
 From stdpp Require Import gmap.
-From CV Require Import Chain.Store Chain.StoreProofs.
+From CV Require Import Chain.Store Chain.StoreProofs Chain.Accum Chain.AccumProofs.
 Open Scope N_scope.
 
 (** Applying the elements of a block and reverting them (law L1: reverse diff lists)
@@ -120,13 +120,59 @@ Theorem C02_revised_and_resolved_refuted :
 Proof. exact revised_and_resolved_refuted. Qed.
 Print Assumptions C02_revised_and_resolved_refuted.
 
-(** getElementProof (db.go:531-548) reads, for a leaf below the accumulator size [n], only
-    nodes whose leaves lie wholly inside the accumulator (the ones a revert leaves current):
-    checked exhaustively for every size up to 128 and every leaf; on larger accumulators the
-    harness checks the same predicate for every proof the real store serves. *)
-Theorem C02_get_proof_reads_live_bounded :
-  ∀ n leaf, n <= 128 → leaf < n →
+(** ** The accumulator (Tree bucket, model in Chain/Accum.v: symbolic hashes)
+
+    getElementProof (db.go:531-548) reads, for every leaf below the accumulator size [n],
+    only nodes whose leaves lie wholly inside the accumulator — for all sizes
+    ([plen leaf n] = bits.Len64(leaf xor n) - 1 rows, sibling (r, (leaf >> r) xor 1)). *)
+Theorem C02_get_proof_reads_live :
+  ∀ leaf n r, leaf < n → (r < plen leaf n)%nat → (sib leaf r + 1) * 2 ^ N.of_nat r <= n.
+Proof. exact get_proof_reads_live. Qed.
+Print Assumptions C02_get_proof_reads_live.
+
+(** the same for the read model the correspondence evaluates on every proof the real store
+    serves (Chain/Store.v) *)
+Theorem C02_get_proof_reads_live_store :
+  ∀ leaf n, leaf < n →
     ∃ reads, get_proof_reads leaf n = Some reads ∧
              ∀ r c, In (r, c) reads → (c + 1) * 2 ^ r <= n.
-Proof. exact get_proof_reads_live_bounded. Qed.
-Print Assumptions C02_get_proof_reads_live_bounded.
+Proof. exact store_get_proof_reads_live. Qed.
+Print Assumptions C02_get_proof_reads_live_store.
+
+(** The invariant "every live node holds the hash of its block of the current leaves"
+    ([tinv]; stale nodes above or to the right are allowed) is preserved by a block step in
+    either direction under law L2 ([acc_step]), provided the row-0 writes cover every new
+    leaf ([wf_step]; on a revert there are none). *)
+Theorem C02_tree_invariant_preserved :
+  ∀ a ups n, tinv a → wf_step a ups n → tinv (acc_step a ups n).
+Proof. exact tinv_step. Qed.
+Print Assumptions C02_tree_invariant_preserved.
+
+(** Hence the proof getElementProof returns for a leaf is exactly the sibling path of that
+    leaf in its tree, and it verifies (symbolic verifier: fold the path upwards) against the
+    accumulator root of that tree's height. *)
+Theorem C02_served_proof_is_the_merkle_path :
+  ∀ a leaf, tinv a → leaf < N.of_nat (length (a_leaves a)) →
+    let ls := a_leaves a in
+    let n := N.of_nat (length ls) in
+    get_proof (a_tree a) leaf n =
+      Some (map (λ r, node_of ls r (sib leaf r)) (seq 0 (plen leaf n))) ∧
+    ∃ p, get_proof (a_tree a) leaf n = Some p ∧ verifies ls leaf p = true.
+Proof. exact served_proof_is_merkle_path. Qed.
+Print Assumptions C02_served_proof_is_the_merkle_path.
+
+(** After any history of applies and reverts (a revert restores the old hashes of the leaves
+    the block touched and the old size) the bucket satisfies the invariant for the leaves of
+    the chain that remains; so it serves, for every leaf, the proof any node serves that
+    only saw that chain — and that proof verifies. *)
+Theorem C02_tree_history_independent :
+  ∀ l c, steps_ok hacc_empty l → remaining [] l = Some c →
+    ∃ h, hrun hacc_empty l = Some h ∧ tinv (h_acc h) ∧ a_leaves (h_acc h) = linear_leaves c ∧
+      ∀ a' leaf, tinv a' → a_leaves a' = linear_leaves c →
+        leaf < N.of_nat (length (linear_leaves c)) →
+        get_proof (a_tree (h_acc h)) leaf (N.of_nat (length (linear_leaves c))) =
+        get_proof (a_tree a') leaf (N.of_nat (length (linear_leaves c))) ∧
+        ∃ p, get_proof (a_tree (h_acc h)) leaf (N.of_nat (length (linear_leaves c))) = Some p ∧
+             verifies (linear_leaves c) leaf p = true.
+Proof. exact tree_history_independent. Qed.
+Print Assumptions C02_tree_history_independent.
